@@ -1,0 +1,218 @@
+//! State of the simulation seams (cargo feature `verif-hooks`).
+//!
+//! One `SimShared` per simulated daemon.  The harness creates it, `arm`s it right before
+//! `ServiceDaemon::new()`, and the hook at the top of `daemon_thread` installs it in a
+//! thread-local of the new daemon thread.  Every hook asks this module first and falls
+//! through to the original code when no context is installed on the current thread.
+//!
+//! No logic of its own: queues, a log, one gate.
+
+use if_addrs::Interface;
+/// Re-exported so that the harness can build injected datagrams without its own dependency.
+pub use socket_pktinfo::PktInfo;
+use std::cell::{Cell, RefCell};
+use std::collections::VecDeque;
+use std::net::SocketAddr;
+use std::sync::{Arc, Condvar, Mutex, MutexGuard};
+
+/// One packet the daemon wanted to send.
+#[derive(Debug, Clone)]
+pub struct TxRecord {
+    pub if_index: u32,
+    pub v4: bool,
+    /// `None` = multicast to the mDNS group.
+    pub dest: Option<SocketAddr>,
+    pub bytes: Vec<u8>,
+    /// virtual time of the send
+    pub now: u64,
+}
+
+/// The simulated world of one daemon.  Written by the harness, read by the hooks
+/// (and vice versa for `tx`, `parked`, `wake`, `ended`).
+#[derive(Default)]
+pub struct SimState {
+    /// what `if_addrs::get_if_addrs()` returns
+    pub ifaces: Vec<Interface>,
+    /// what `fastrand::u64(..)` returns
+    pub jitter: u64,
+    /// injected datagrams, per family
+    pub rx_v4: VecDeque<(Vec<u8>, PktInfo)>,
+    pub rx_v6: VecDeque<(Vec<u8>, PktInfo)>,
+    /// egress log
+    pub tx: Vec<TxRecord>,
+    /// loop iterations granted and not yet started
+    pub grants: u32,
+    /// the daemon is blocked at the gate
+    pub parked: bool,
+    /// `earliest_timer` reported at the gate where the daemon is parked (or was last parked)
+    pub wake: Option<u64>,
+    /// number of gates passed (= loop iterations started)
+    pub iterations: u64,
+    /// the gate no longer blocks and no longer zeroes the poll timeout
+    pub free_run: bool,
+    /// `Some(panicked)` once the daemon thread is gone
+    pub ended: Option<bool>,
+}
+
+pub struct SimShared {
+    pub state: Mutex<SimState>,
+    pub cv: Condvar,
+}
+
+impl SimShared {
+    pub fn new(ifaces: Vec<Interface>, jitter: u64) -> Arc<Self> {
+        Arc::new(SimShared {
+            state: Mutex::new(SimState {
+                ifaces,
+                jitter,
+                ..Default::default()
+            }),
+            cv: Condvar::new(),
+        })
+    }
+
+    pub fn lock(&self) -> MutexGuard<'_, SimState> {
+        self.state.lock().unwrap_or_else(|e| e.into_inner())
+    }
+}
+
+static ARMED: Mutex<Option<Arc<SimShared>>> = Mutex::new(None);
+
+thread_local! {
+    static CTX: RefCell<Option<Arc<SimShared>>> = const { RefCell::new(None) };
+    /// (if_index, is_v4) of the `send_dns_outgoing_impl` call in progress.
+    static TX_INTF: Cell<(u32, bool)> = const { Cell::new((0, true)) };
+}
+
+/// The next daemon thread that starts takes `ctx`.
+pub fn arm(ctx: Arc<SimShared>) {
+    *ARMED.lock().unwrap_or_else(|e| e.into_inner()) = Some(ctx);
+}
+
+/// Removes an armed context that no daemon thread has taken (e.g. `ServiceDaemon::new` failed).
+pub fn disarm() {
+    *ARMED.lock().unwrap_or_else(|e| e.into_inner()) = None;
+}
+
+fn ctx() -> Option<Arc<SimShared>> {
+    CTX.with(|c| c.borrow().clone())
+}
+
+/// Is the current thread a simulated daemon?
+pub fn active() -> bool {
+    CTX.with(|c| c.borrow().is_some())
+}
+
+/// Reports the end of the daemon thread when dropped.
+pub struct ThreadGuard(Option<Arc<SimShared>>);
+
+/// Hook at the top of `daemon_thread`: installs the armed context (if any) on this thread.
+pub fn install_armed() -> ThreadGuard {
+    let armed = ARMED.lock().unwrap_or_else(|e| e.into_inner()).take();
+    CTX.with(|c| *c.borrow_mut() = armed.clone());
+    ThreadGuard(armed)
+}
+
+impl Drop for ThreadGuard {
+    fn drop(&mut self) {
+        if let Some(ctx) = self.0.take() {
+            let _ = CTX.try_with(|c| *c.borrow_mut() = None);
+            let mut st = ctx.lock();
+            st.parked = false;
+            st.ended = Some(std::thread::panicking());
+            ctx.cv.notify_all();
+        }
+    }
+}
+
+/// Interface table seam.
+pub fn ifaces() -> Option<Vec<Interface>> {
+    ctx().map(|c| c.lock().ifaces.clone())
+}
+
+/// Jitter seam.
+pub fn jitter() -> Option<u64> {
+    ctx().map(|c| c.lock().jitter)
+}
+
+/// Egress seam: logs the packet.  Returns false when not simulated.
+pub fn tx(if_index: u32, v4: bool, dest: Option<SocketAddr>, packet: &[u8]) -> bool {
+    match ctx() {
+        Some(c) => {
+            c.lock().tx.push(TxRecord {
+                if_index,
+                v4,
+                dest,
+                bytes: packet.to_vec(),
+                now: crate::current_time_millis(),
+            });
+            true
+        }
+        None => false,
+    }
+}
+
+/// Remembers on which interface / family `send_dns_outgoing_impl` is sending.
+pub fn tx_intf(if_index: u32, v4: bool) {
+    TX_INTF.with(|t| t.set((if_index, v4)));
+}
+
+/// Egress seam for `unicast_on_intf`, which is not told the interface.
+pub fn tx_unicast(dest: SocketAddr, packet: &[u8]) -> bool {
+    let (if_index, v4) = TX_INTF.with(|t| t.get());
+    tx(if_index, v4, Some(dest), packet)
+}
+
+/// Ingress seam.  `None` = not simulated; `Some(None)` = nothing to read (`WouldBlock`).
+pub fn rx(v4: bool, buf: &mut [u8]) -> Option<Option<(usize, PktInfo)>> {
+    let c = ctx()?;
+    let mut st = c.lock();
+    let q = if v4 { &mut st.rx_v4 } else { &mut st.rx_v6 };
+    Some(q.pop_front().map(|(bytes, info)| {
+        let n = bytes.len().min(buf.len());
+        buf[..n].copy_from_slice(&bytes[..n]);
+        (n, info)
+    }))
+}
+
+/// Loop gate: reports the requested wake-up, parks until the harness grants one iteration.
+/// Returns true if this iteration runs under the harness' control (poll must not block).
+pub fn gate(wake: Option<u64>) -> bool {
+    let Some(c) = ctx() else {
+        return false;
+    };
+    let mut st = c.lock();
+    st.wake = wake;
+    st.parked = true;
+    c.cv.notify_all();
+    while st.grants == 0 && !st.free_run {
+        st = c.cv.wait(st).unwrap_or_else(|e| e.into_inner());
+    }
+    st.parked = false;
+    st.iterations += 1;
+    if st.free_run {
+        return false;
+    }
+    st.grants -= 1;
+    true
+}
+
+/// Stand-in for the `if_addrs` crate at the one place the daemon lists interfaces.
+pub mod if_addrs_seam {
+    pub fn get_if_addrs() -> std::io::Result<Vec<if_addrs::Interface>> {
+        match super::ifaces() {
+            Some(list) => Ok(list),
+            None => if_addrs::get_if_addrs(),
+        }
+    }
+}
+
+/// Stand-in for the `fastrand` crate at the jitter sites.
+pub mod fastrand_seam {
+    pub fn u64(range: impl std::ops::RangeBounds<u64>) -> u64 {
+        match super::jitter() {
+            Some(j) => j,
+            None => fastrand::u64(range),
+        }
+    }
+}
